@@ -50,8 +50,10 @@ def __text(value):
 
 
 def __convert_tracepoint(tracepoint: TrPoCo):
+    # the args of a tracepoint registered in code can be numbers (fire_count=2): the wire format carries their text
     return TracePointConfig(ID=tracepoint.id, path=__text(tracepoint.path), line_number=tracepoint.line_no,
-                            args={__text(k): __text(v) for k, v in tracepoint.args.items()},
+                            args={__text(k): __text(v if isinstance(v, str) else str(v))
+                                  for k, v in tracepoint.args.items()},
                             watches=[__text(w) for w in tracepoint.watches])
 
 
